@@ -1,6 +1,6 @@
 (* Properties_C04.v — obligations of property C04 (a callback fires exactly when its field changes,
    and sees the new value). *)
-Require Import ObsRun Lemmas_Cb Lemmas_CbText.
+Require Import ObsRun Lemmas_Cb Lemmas_CbText Lemmas_CbRt.
 Local Open Scope Z_scope.
 
 (* For EVERY state, every group and each of PI, PTY, TP, TA, MS, ECC, country: the callbacks of that
@@ -47,6 +47,24 @@ Theorem C04_ptyn_callbacks : forall conv lut g s, Inv conv s -> wf_group g -> b_
 Proof. intros conv lut g s I W G V. exact (ptyn_callbacks_10A conv lut g s I W G V). Qed.
 Print Assumptions C04_ptyn_callbacks.
 
+(* RadioText (type-2 group with flag f): no callback when the group is ignored as a possible
+   bit-flip; otherwise exactly one callback — with flag f and the text the getter of that flag
+   returns after the call — iff the buffer of f was emptied by the A/B switch (it held something)
+   or one of its cells differs from what it held (after that emptying); none otherwise *)
+Theorem C04_rt_callbacks : forall conv lut g s, Inv conv s -> wf_group g -> b_group (gb g) = 2 ->
+  let s' := fst (process conv lut g s) in
+  let f := b_rtflag (gb g) in
+  let last := last_rt s in
+  let clr := (eb g =? 0) && negb (f =? last) && negb (last =? -1) && string_available (rt_of f s) in
+  let ignored := negb (eb g =? 0) && negb (f =? last) && negb (last =? -1) in
+  let base := if clr then cells (string_clear (rt_of f s)) else cells (rt_of f s) in
+  filter (isf FRT) (snd (process conv lut g s)) =
+  if ignored then []
+  else if (clr || negb (cells_eqb (cells (rt_of f s')) base)) && negb (cb s FRT =? 0)
+       then [mkev FRT (cb s FRT) (ud s) (AFlag f) (SmText (tsnap_of (rt_of f s')))] else [].
+Proof. exact rt_callbacks. Qed.
+Print Assumptions C04_rt_callbacks.
+
 (* no callback at all outside a successful parse call *)
 Theorem C04_only_parse_calls_notify : forall conv lut s o,
   op_group o = None -> snd (step conv lut s o) = [].
@@ -56,7 +74,7 @@ Proof.
 Qed.
 Print Assumptions C04_only_parse_calls_notify.
 
-(* PARTIAL: for RT (incl. the switch that discards a text) and the AF list the
+(* PARTIAL: for the AF list the
    statement "callback iff changed, sample = new value" is part of obs_C04 and is evaluated on the
    model (Example) and on the library (check) but is not yet proved for all runs; the `changed`
    flag of a text block is proved to be "some addressed cell changed" (upd_string_spec / changed2). *)
